@@ -17,6 +17,7 @@ func TestRandomMap(t *testing.T) {
 	rapid.Check(t, func(rt *rapid.T) {
 		o := drawShrinkOpts(rt)
 		h := newHist(check, o.String())
+		defer h.guard(rt)
 		m := randommap.New[int, int](shrinkOptions(o)...)
 		model := map[int]int{}
 		tr := &shrinkTracker{o: o}
